@@ -473,6 +473,16 @@ mod strmodel_native_validation {
         for &a in &alphabet { for &b in &alphabet { let s: String = [a, b].iter().collect(); check(&s); } }
         let small: Vec<char> = alphabet.iter().cloned().filter(|c| !c.is_ascii_graphic() || "aAzZ_0~".contains(*c)).collect();
         for &a in &small { for &b in &small { for &c in &small { for &d in &small { let s: String = [a, b, c, d].iter().collect(); check(&s); } } } }
+        // expanding case mappings (one character becomes two): separate models, alphabet ASCII + U+00DF resp. U+0130
+        let exp_up = ['\u{df}', 'a', 'Z', ' ', '0'];
+        let exp_lo = ['\u{130}', 'a', 'Z', ' ', '0'];
+        for &a in &exp_up { for &b in &exp_up { for &c in &exp_up { let s: String = [a, b, c].iter().collect(); n += 1;
+            assert_eq!(to_uppercase_model_expanding(&s), s.to_uppercase(), "expanding uppercase model differs on {:?}", s);
+            assert_eq!(to_uppercase_model_expanding(&s[a.len_utf8()..]), s[a.len_utf8()..].to_uppercase()); } } }
+        for &a in &exp_lo { for &b in &exp_lo { for &c in &exp_lo { let s: String = [a, b, c].iter().collect(); n += 1;
+            assert_eq!(to_lowercase_model_expanding(&s), s.to_lowercase(), "expanding lowercase model differs on {:?}", s);
+            assert_eq!(to_lowercase_model_expanding(&s[a.len_utf8()..]), s[a.len_utf8()..].to_lowercase()); } } }
+        for c in ['\u{df}', '\u{130}', 'a', '\u{7f}', '\u{80}', '\u{7ff}'] { let mut m = String::new(); push_2byte_model(&mut m, c); let mut r = String::new(); r.push(c); assert_eq!(m, r); n += 1; }
         println!("strmodel validated on {} strings", n);
     }
 }
@@ -568,6 +578,40 @@ def c09_harness(d, target_len, stream_sk, name, kind_cover=True, selector=None):
     return src, empty_step
 
 
+def c09_case_expansion(plan):
+    """case sanitizers whose mapping turns ONE character into TWO (`ß` -> "SS", `İ` -> "i̇") against `len_char_max`: the text is not
+    predicted (a generator may avoid or replace such characters as it likes); the assertion is C09's core - no panic, and the returned
+    text satisfies the declared limits and is case-sanitized."""
+    cases = [
+        ("c09s_up_expand1", "sanitize(uppercase), validate(not_empty, len_char_max = 1)", 1, 1, ["0xdf, 0, 0, 0"], [], "upper", "U+00DF"),
+        ("c09s_lo_expand1", "sanitize(lowercase), validate(not_empty, len_char_max = 1)", 1, 1, ["0x30, 0x01, 0, 0"], [], "lower", "U+0130"),
+        ("c09s_up_expand2", "sanitize(uppercase), validate(len_char_min = 2, len_char_max = 2)", 2, 2, ["0x62, 0, 0, 0", "0xdf, 0, 0, 0"], [], "upper", "'b' U+00DF"),   # (a symbolic filler next to a 2-byte character makes the buffer length symbolic: does not finish)
+    ]
+    out = []
+    for (mod, attr, lo, hi, words, fills, case, what) in cases:
+        hn = "c09_str_%s" % mod
+        stubs = ("    #[kani::stub(str::to_uppercase, crate::support::strmodel::to_uppercase_model_expanding)]\n" if case == "upper" else
+                 "    #[kani::stub(str::to_lowercase, crate::support::strmodel::to_lowercase_model_expanding)]\n")
+        stubs += "    #[kani::stub(alloc::string::String::push, crate::support::strmodel::push_2byte_model)]\n"
+        b = []
+        for f in fills:
+            b.append("let b%s: u8 = kani::any(); kani::assume(b%s > 0x20 && b%s < 0x7f);" % (f, f, f))
+        b.append("let data: [u8; %d] = [%s];" % (4 * len(words), ", ".join(words)))
+        b.append("let mut u = arbitrary::Unstructured::new(&data);")
+        b.append("let r = <S as arbitrary::Arbitrary>::arbitrary(&mut u);")
+        b.append("kani::cover!(r.is_ok());")
+        bad = "gb[i] >= b'a' && gb[i] <= b'z'" if case == "upper" else "gb[i] >= b'A' && gb[i] <= b'Z'"
+        b.append("match r { Ok(v) => { let g = v.into_inner(); let gb = g.as_bytes(); let mut n = 0usize; let mut cased_ok = true; let mut i = 0; "
+                 "while i < gb.len() { if (gb[i] & 0xC0) != 0x80 { n += 1; } if %s { cased_ok = false; } i += 1; } "
+                 "assert!(n >= %d && n <= %d, \"arbitrary returned a text whose character count violates the declared limits\"); "
+                 "assert!(cased_ok, \"arbitrary returned a text that is not case-sanitized\"); core::mem::forget(g); } Err(_) => {} }" % (bad, lo, hi))
+        body = "    #[kani::proof]\n    #[kani::unwind(14)]\n%s    pub fn %s() {\n        %s\n    }\n" % (stubs, hn, "\n        ".join(b))
+        out.append("pub mod %s {\n    use super::*;\n    use nutype::nutype;\n    #[nutype(%s, derive(Debug, Arbitrary))]\n    pub struct S(String);\n%s}\n" % (mod, attr, body))
+        plan.add(H(hn, "main", {"type": "String", "attr": attr, "stream": "4-byte words encoding " + what + " (a character whose case mapping yields two characters)",
+                                "asserts": "no panic; character count within the declared limits; case-sanitized"}))
+    return "\n".join(out)
+
+
 def gen_c09(plan, tier, rng):
     src = []
     decls = [
@@ -598,4 +642,5 @@ def gen_c09(plan, tier, rng):
             body += h[0]
             plan.add(H(hn, "best_effort" if h[1] else "main", dict(d.describe(), target_len=tlen, stream="4-byte words encoding " + skeleton_repr(sk) + " (fillers symbolic ASCII), then exhausted")))
         src.append(module(d, body))
+    src.append(c09_case_expansion(plan))
     return "\n".join(src)
